@@ -32,7 +32,7 @@ CLAIMED = {
              "decided.",
         ref='3/C14', technique='finite-domain abstract interpretation of '
                                'version predicates, constant-folded schemas, '
-                               'documentation cross-check'),
+                               'documentation cross-check, path-sensitive _find_method with entry roles'),
     'C02': dict(
         text="Three structural clauses: (1) the SQL candidate filter, the "
              "post-merge filter and the write-time check normalise to the "
@@ -46,7 +46,7 @@ CLAIMED = {
              "Existence of providers and summary values are not decided.",
         ref='3/C02', technique='normal-form predicate comparison, path '
                                'condition enumeration, per-version abstract '
-                               'evaluation of emitter and schema tables'),
+                               'evaluation of emitter and schema tables, CFG must-pass exits of the per-class tree intersection'),
     'C07': dict(
         text="Composite necessary condition only: one allocation write = "
              "one writer scope holding capacity check on committed usage -> "
@@ -66,8 +66,10 @@ CLAIMED = {
              "whole get_subtree(); the re-parent flag is bound to the 1.37 "
              "gate; parents are not deleted; status mapping. The forest "
              "invariant over histories is not decided.",
-        ref='3/C09', technique='guard dominance on CFG with reaching '
-                               'definitions, gate-bound flag tracing'),
+        ref='3/C09', technique='path-sensitive value propagation over the '
+                               'create/update functions (stores and guards '
+                               'per path), reviewed SQL shape of the in_tree '
+                               'listing, gate-bound flag tracing'),
     'C12': dict(
         text="Closed who-may-insert/delete table for consumers; the write "
              "ends with removal of consumers left without allocations on "
@@ -75,7 +77,7 @@ CLAIMED = {
              "an Allocation or removed (bypass-path analysis); placeholders, "
              "type gate and in-transaction attribute update.",
         ref='3/C12', technique='effect tables, must-pass on CFG, bypass path '
-                               'query, constant-folded configuration'),
+                               'query, constant-folded configuration, path-sensitive propagation of the created-consumer flag, unconditional compensation delete'),
     'C13': dict(
         text="Writer/reader key agreement between schema, handler and query "
              "builder; a table-driven check that each of the eight filters "
@@ -85,7 +87,7 @@ CLAIMED = {
              "are not decided.",
         ref='3/C13', technique='constant-key dataflow between sibling '
                                'tables, clause-shape matching, CFG '
-                               'dominance'),
+                               'dominance, path-sensitive prefix/polarity decision of the value parsers'),
     'C15': dict(
         text="Inter-procedural may-raise over all 42 handler definitions "
              "(nothing but webob errors / NotFound / PolicyNotAuthorized "
@@ -96,7 +98,7 @@ CLAIMED = {
              "dominates writes; two-sided integer bounds before SQL.",
         ref='3/C15', technique='exception escape analysis over the call '
                                'graph, CFG dominance, source-to-sink '
-                               'conversion site enumeration'),
+                               'conversion site enumeration, divisor fields vs schema minima, handler-reads-rebound-name scan'),
     'C17': dict(
         text="Retry decorators: closed table, argument values, position "
              "outside the writer decorator; no catch-all or DB-error handler "
@@ -106,7 +108,7 @@ CLAIMED = {
              "decided (fault-sequence property).",
         ref='3/C17', technique='decorator-order and argument checks, '
                                'handler-swallow analysis on CFGs, '
-                               'who-may-write scopes'),
+                               'who-may-write scopes, no database access after the committed write (CFG reachability over effect summaries)'),
     'C18': dict(
         text="Given enginefacade scope joining (trusted), a crash leaves all "
              "or none of one transaction root: per handler at most one root "
@@ -122,7 +124,7 @@ CLAIMED = {
              "collision handling, start-up sync wiring and set-difference "
              "inserts.",
         ref='3/C19', technique='regular-language facts from the regex AST, '
-                               'guard dominance, return-path analysis'),
+                               'guard dominance, return-path analysis, path-sensitive next-id and once-flag decisions'),
     'C20': dict(
         text="Provenance of the limited list (parameter, slice or "
              "random.sample of it bounded by limit, under the stated "
@@ -130,7 +132,7 @@ CLAIMED = {
              "-> limit order with unchanged return, summaries pruned by the "
              "kept requests' roots.",
         ref='3/C20', technique='assignment provenance, control dependence, '
-                               'call-order dominance'),
+                               'call-order dominance, result lists untouched after the limit'),
     'C01': dict(
         text="Decides the structural clauses of capacity safety: who may "
              "write allocations; delete -> capacity check -> insert order on "
@@ -143,7 +145,7 @@ CLAIMED = {
              "over histories is not decided.",
         ref='3/C01', technique='who-may-write effect table, CFG dominance, '
                                'normal-form comparison of guard predicates, '
-                               'constant-folded JSON schemas'),
+                               'constant-folded JSON schemas, stored-column source table for inventories, key = lookup text'),
     'C04': dict(
         text="Every write reachable from each of the 42 handler definitions "
              "lies below a writer scope; at most one transaction per request "
@@ -209,7 +211,7 @@ CLAIMED = {
              "of the code on every path, which no request sample covers.",
         ref='3/C16', technique='AST who-may-call + CFG dominance/must-pass '
                                'over resolved call graph; constant-folded '
-                               'route and policy tables'),
+                               'route and policy tables, path-sensitive decision of the 401 middleware, policy option scan'),
 }
 
 CLAIMED['C11'] = dict(
